@@ -236,6 +236,7 @@ class Ctx:
         shutil.rmtree(self.work, ignore_errors=True)
         os.makedirs(self.work)
         self.replay_root = os.path.join(VERIF, "replay", pid)
+        shutil.rmtree(self.replay_root, ignore_errors=True)
         self.evaluations = 0
         self.distinct = set()
         self.samples = []
